@@ -1055,6 +1055,10 @@ def remap_by_types(
                     return a
                 if a in [int, float, Any] and b in [int, float, Any]:
                     return float
+                if a is Any or b is Any:
+                    # Nothing is known about one of the two (`e.name if e.ok else 'none'`):
+                    # nothing says they do not go together.
+                    return Any
                 if (
                     getattr(a, "__name__", None) == "dict_dataclass"
                     and getattr(b, "__name__", None) == "dict_dataclass"
